@@ -32,6 +32,12 @@ pub fn bind_condition_expr(
     binder.true_target = old_true_target;
     binder.false_target = old_false_target;
 
+    // A condition in dead code is never evaluated: it contributes no edge to its targets, otherwise
+    // the dead branch would start a new flow (and a `break` inside it would reach the loop exit).
+    if current == binder.unreachable {
+        return;
+    }
+
     if !is_binary_logical(&condition_expr) {
         let true_condition =
             binder.create_node(FlowNodeKind::TrueCondition(condition_expr.to_ptr()));
